@@ -303,13 +303,13 @@ def _run_contract(args):
                 nob += 1
                 trouble = failing.get(ob.name, 0)
                 st, solver, ms, model = discharge(ob, timeout_ms if trouble < 3 else min(timeout_ms, 2000), seed, fallbacks=trouble < 3)
-                # second chances are bounded per task (a broken function can leave hundreds of hard queries): 3 minutes of extra solver time in all
-                if st == "unknown" and trouble >= 3 and extra_ms[0] < 180000:
+                # second chances are bounded per task (a broken function can leave hundreds of hard queries): one minute of extra solver time in all
+                if st == "unknown" and trouble >= 3 and extra_ms[0] < 60000:
                     # the short budget is for obligations that keep being refuted; an undecided one gets the full treatment after all
                     st, solver, ms2, model = discharge(ob, timeout_ms, seed, fallbacks=True)
                     ms += ms2
                     extra_ms[0] += ms2
-                if st == "unknown" and extra_ms[0] < 180000:
+                if st == "unknown" and extra_ms[0] < 60000:
                     # verdicts must not flip with machine load or solver luck: one more attempt with four times the budget and another seed
                     st_b, solver_b, ms_b, model_b = discharge(ob, timeout_ms * 4, seed + 7919, fallbacks=True)
                     ms += ms_b
